@@ -1395,6 +1395,9 @@ class Module(ABC):
             inds = parameter["indices"]
             set_param = parameter["val"]
             if key in states:  # Only initial states, not parameters.
+                # Synaptic states live in one array per synapse type: convert the
+                # global edge indices to indices within the type.
+                inds = self.base._index_within_synapse_type(key, inds)
                 # `inds` is of shape `(num_params, num_comps_per_param)`.
                 # `set_param` is of shape `(num_params,)`
                 # We need to unsqueeze `set_param` to make it `(num_params, 1)` for the
